@@ -51,13 +51,15 @@ Definition enc_bool (b : bool) : cval := I (if b then 1 else 0)%Z.
 Definition choice_of (v : cval) : achoice := Pooled (vnat v).
 
 (* the co-tenant obtained these known blocks, a list of (class id off).  It takes them, overwrites
-   them completely and frees them.  An interior pointer can never be legitimate. *)
+   them (the model: the first 64 KiB — the contents of a block in foreign hands are dirt, the
+   bound only keeps the MiB-sized blocks of the big-value histories cheap) and frees them.
+   An interior pointer can never be legitimate. *)
 Definition dec_cot (v : cval) : list costep :=
   concat (map (fun x => match x with
                         | L [I cl; I id; I off] =>
                           let c := 2 ^ Z.to_N cl in
                           if (off =? 0)%Z
-                          then [CoAlloc c (Pooled (Z.to_nat id)); CoWrite (Z.to_nat id) 0 (repeat 199 (N.to_nat c)); CoFree (Z.to_nat id)]
+                          then [CoAlloc c (Pooled (Z.to_nat id)); CoWrite (Z.to_nat id) 0 (repeat 199 (N.to_nat (N.min c 65536))); CoFree (Z.to_nat id)]
                           else [CoAlloc c (Fresh [])]
                         | _ => [CoAlloc 1 (Fresh [])] end) (vlist v)).
 
@@ -120,6 +122,10 @@ Definition dec_kop (v : cval) : option kop :=
   | L [I 0%Z; I _; L sizes] => Some (KNext (map vN sizes))
   | L [I 1%Z; I n] => Some (KSkipN (Z.to_N n))
   | L (I 2%Z :: p) => match dec_src p with Some s => Some (KReset s) | None => None end
+  (* Release(): Reset(nil) + sync.Pool.Put — the decoder keeps p.b, n = 0, no reader (an exhausted source) *)
+  | L [I 3%Z] => Some (KReset (done_source []))
+  (* NewReaderSkipDecoder(r) handing the released object out again: sync.Pool.Get + Reset(r) *)
+  | L (I 4%Z :: p) => match dec_src p with Some s => Some (KReset s) | None => None end
   | _ => None
   end.
 Definition enc_kout (o : kout) : cval :=
@@ -154,7 +160,10 @@ Section Loop.
           let al := map choice_of allocs in
           let '(st', e', mout) := step (a_st a) (mkE w al (map dec_cot cots) (map dec_cot pcots) (a_tr a)) o in
           let w1 := co_run (ew e') (dec_cot after) in
-          let ag := cv_eqb mout out && cv_eqb (enc_state st') stv in
+          (* every callback and every pool operation the implementation made was one of the model's
+           (a surplus mcache.Malloc/Free or io call leaves its co-tenant script unconsumed) *)
+        let used := match eadv e', epool e' with [], [] => true | _, _ => false end in
+        let ag := cv_eqb mout out && cv_eqb (enc_state st') stv && used in
           let sp := (Z.of_nat (length (wh w1)) =? nids)%Z in
           mkA st' w1 (eev e') ag (a_agree a && ag) (spec_obs && sp)
               (a_reuse a || (length (wh w1) <? length (filter is_born (eev e')))%nat)
